@@ -11,8 +11,8 @@ use std::time::{Duration, UNIX_EPOCH};
 
 pub static DEF: PropDef = PropDef {
     id: "C15",
-    rule: "age: a regular file whose atime and mtime are set with utimensat at ns precision to different values (ctime read back), 'now' injected through Dependencies::now() as ts + k*period + delta with period in {86400 s, 60 s}, k in 0..400, delta in {-1 ns, 0, +1 ns, +/-1 s, +/-999999999 ns, random}, N in k-2..k+2 with all three prefixes, on each of the six tests -[acm]time/-[acm]min. newer: a reference file and an entry with independent timestamps, entry.X placed at ref.Y + {-1 ns, 0, +1 ns, -1 s, +1 s, far} for all nine XY over a,c,m plus -newer/-anewer/-cnewer (ctime relations produced by the order of the last inode change and by placing the other file's a/m time relative to the read-back ctime). Oracle: model from the statement on the READ-BACK timestamps: floor((now - ts)/period) compared with N; strict entry.X > ref.Y at full resolution. Non-trivial = age within 1 s of a period boundary, or entry.X within 1 s of ref.Y, or X != Y with ref's three timestamps not all on the same side of entry.X. Distinct = distinct case JSON.",
-    assumptions: &["ages < 0, -daystart and -newerXt are outside the statement and not asserted", "timestamps are read back after set-up and again after the run (the run must not disturb them)", "equal ctimes (both changes in one kernel tick) occur by coincidence and are counted, not forced"],
+    rule: "age: a regular file whose atime and mtime are set with utimensat at ns precision to different values (ctime read back), 'now' injected through Dependencies::now() as ts + k*period + delta with period in {86400 s, 60 s}, k in 0..400, delta in {-1 ns, 0, +1 ns, +/-1 s, +/-999999999 ns, random}, N in k-2..k+2 with all three prefixes, on each of the six tests -[acm]time/-[acm]min. newer: a reference file and an entry with independent timestamps, entry.X placed at ref.Y + {-1 ns, 0, +1 ns, -1 s, +1 s, far} for all nine XY over a,c,m plus -newer/-anewer/-cnewer (ctime relations produced by the order of the last inode change and by placing the other file's a/m time relative to the read-back ctime). Oracle: model from the statement on the READ-BACK timestamps: floor((now - ts)/period) compared with N; strict entry.X > ref.Y at full resolution. start-clock (the real binary, the real clock): a file that is k*period - margin old (margin 0.4-0.9 s) when find is spawned, with a command lasting margin + 0.25-0.5 s run by -exec before the time test is first evaluated (on the same entry, or on an earlier starting point), or after it (control); 'now' lies between the spawn and the start of that command (its record's timestamp), so k-1 complete periods are expected; cases in which that upper bound is not before the boundary are discarded. Non-trivial = age within 1 s of a period boundary, or entry.X within 1 s of ref.Y, or X != Y with ref's three timestamps not all on the same side of entry.X. Distinct = distinct case JSON.",
+    assumptions: &["ages < 0, -daystart and -newerXt are outside the statement and not asserted", "timestamps are read back after set-up and again after the run (the run must not disturb them)", "equal ctimes (both changes in one kernel tick) occur by coincidence and are counted, not forced", "start-clock: find reads the clock no earlier than it is spawned and, if 'now' is fixed at start-up, no later than the first command it runs is started"],
     run,
     replay,
     fuzz: None,
@@ -261,16 +261,117 @@ pub fn check_newer(ctx: &mut Ctx, c: &NewerCase) -> Outcome {
         .ok()
 }
 
+/// "With 'now' fixed when find starts": the real binary with the real clock.  The file is
+/// `k*period - margin` old when find is spawned and a command that lasts longer than `margin` runs
+/// before the time test is first evaluated, so a clock read later than start-up sees one period more.
+#[derive(Serialize, Deserialize, Debug, Clone)]
+pub struct ClockCase {
+    /// 'a' | 'm'
+    pub which: char,
+    pub minutes: bool,
+    pub k: u64,
+    pub margin_ms: u32,
+    pub extra_ms: u32,
+    /// 0: `f -exec SLOW ; TEST -print`; 1: `g f ( -name g -exec SLOW ; ) -o ( TEST -print )`;
+    /// 2: `f TEST -print -exec SLOW ;` (control: nothing slow before the test)
+    pub shape: u8,
+    pub n_rel: i64,
+    pub prefix: String,
+}
+
+pub fn gen_clock(g: &mut Gen) -> ClockCase {
+    ClockCase {
+        which: g.pick(&['m', 'a']),
+        minutes: g.bool(),
+        k: g.usize_in(1, 4) as u64,
+        margin_ms: g.range(400, 900) as u32,
+        extra_ms: g.range(250, 500) as u32,
+        shape: g.weighted(&[4, 4, 1]) as u8,
+        n_rel: g.range(-1, 1),
+        prefix: g.pick(&["", "+", "-"]).to_string(),
+    }
+}
+
+pub fn check_clock(ctx: &mut Ctx, c: &ClockCase) -> Outcome {
+    use crate::engine::proc::{find_bin, rec_bin, BinOpts};
+    use std::ffi::OsString;
+    ctx.fresh_case_dir();
+    std::fs::write("c/f", b"x").unwrap();
+    std::fs::write("c/g", b"x").unwrap();
+    let period: i128 = if c.minutes { 60 } else { 86400 } * 1_000_000_000i128;
+    let ns_now = || std::time::SystemTime::now().duration_since(UNIX_EPOCH).unwrap().as_nanos() as i128;
+    let t0 = ns_now();
+    let ts = t0 - c.k as i128 * period + c.margin_ms as i128 * 1_000_000;
+    set_times("c/f", Some(split(ts)), Some(split(ts)));
+    let boundary = ts + c.k as i128 * period; // from this instant on the file is k periods old
+    let periods = c.k as i64 - 1;
+    let n = periods + c.n_rel;
+    if n < 0 {
+        return Pass::discard("negative N");
+    }
+    let expect = match c.prefix.as_str() {
+        "+" => periods > n,
+        "-" => periods < n,
+        _ => periods == n,
+    };
+    let test = format!("-{}{}", c.which, if c.minutes { "min" } else { "time" });
+    let op = format!("{}{}", c.prefix, n);
+    let rec = rec_bin().to_string_lossy().into_owned();
+    let args: Vec<String> = match c.shape {
+        0 => vec!["c/f".into(), "-exec".into(), rec, ";".into(), test.clone(), op.clone(), "-print".into()],
+        1 => vec!["c/g".into(), "c/f".into(), "(".into(), "-name".into(), "g".into(), "-exec".into(), rec, ";".into(), ")".into(), "-o".into(), "(".into(), test.clone(), op.clone(), "-print".into(), ")".into()],
+        _ => vec!["c/f".into(), test.clone(), op.clone(), "-print".into(), "-exec".into(), rec, ";".into()],
+    };
+    let log = ctx.root.join("rec.log");
+    let _ = std::fs::remove_file(&log);
+    let a: Vec<OsString> = args.iter().map(OsString::from).collect();
+    let sleep_ms = c.margin_ms + c.extra_ms;
+    let o = ctx.run_bin(&find_bin(), &a, &BinOpts { env: vec![("VERIF_REC_LOG".into(), log.clone().into_os_string()), ("VERIF_REC_SLEEP_MS".into(), sleep_ms.to_string().into())], ..Default::default() });
+    let t_end = ns_now();
+    let shown = args.iter().map(|x| if x.ends_with("/rec") { "SLOW".to_string() } else { x.clone() }).collect::<Vec<_>>().join(" ");
+    if !o.ordinary() || o.code != Some(0) {
+        return fail("C15:start-clock:abnormal-termination", format!("find {shown}\nexit {:?} signal {:?} stderr {:?}", o.code, o.signal, lossy(&o.stderr)));
+    }
+    // find was started no later than the slow command was (its record is written before it sleeps);
+    // in the control shape no later than it ended
+    let started_by = if c.shape == 2 {
+        t_end - sleep_ms as i128 * 1_000_000
+    } else {
+        match std::fs::metadata(&log) {
+            Ok(m) => ts_of(&m, 'm') + 20_000_000, // the file system's clock may lag by a tick
+            Err(_) => return fail("C15:start-clock:slow-command-not-run", format!("find {shown}: the command was not run")),
+        }
+    };
+    if started_by + 30_000_000 >= boundary {
+        return Pass::discard("find may have started after the period boundary (machine too slow for this case)");
+    }
+    let got = o.stdout == b"c/f\n";
+    if got != expect {
+        return fail(
+            format!("C15:start-clock:{test}:{}:{}", if got { "selected-wrongly" } else { "missed" }, ["slow-action-before-test", "slow-action-on-earlier-starting-point", "control"][c.shape as usize]),
+            format!("find {shown}   (SLOW lasts {sleep_ms} ms)\nthe file's {}time was set to (spawn time - {} period(s) + {} ms); find was started at most {} ms after that, i.e. with {periods} complete period(s) elapsed\nexpected selected={expect}, observed selected={got}; stdout {:?} stderr {:?}", c.which, c.k, c.margin_ms, (started_by - t0) / 1_000_000, lossy(&o.stdout), lossy(&o.stderr)),
+        );
+    }
+    Pass::new(c.shape != 2)
+        .class("real-clock")
+        .class(["slow-action-before-test", "slow-action-on-earlier-starting-point", "control"][c.shape as usize])
+        .sample(json!({"cmd": format!("find {shown}"), "slow_ms": sleep_ms, "margin_ms": c.margin_ms, "selected": got}))
+        .ok()
+}
+
 fn run(w: &mut Worker) {
     w.regress::<AgeCase>("age", check_age);
     w.regress::<NewerCase>("newer", check_newer);
     w.random("age", w.tier.pick(120_000, 2_000_000), (16, 32), 400, gen_age, check_age);
     w.random("newer", w.tier.pick(120_000, 2_000_000), (24, 40), 400, gen_newer, check_newer);
+    w.regress::<ClockCase>("start-clock", check_clock);
+    w.random("start-clock", w.tier.pick(96, 960), (12, 24), 12, gen_clock, check_clock);
 }
 
 fn replay(w: &mut Worker, sub: &str, v: Value) -> Outcome {
     match sub {
         "newer" => check_newer(&mut w.ctx, &decode(v)),
+        "start-clock" => check_clock(&mut w.ctx, &decode(v)),
         _ => check_age(&mut w.ctx, &decode(v)),
     }
 }
